@@ -200,6 +200,36 @@ def shape_scenarios(seed):
             steps=[c12, c13_, {"a": "freeze_node", "t": 40, "o": 2},
                    {"a": "burst", "t": 10, "o": 1, "reqs": [R(1, to=2, dial=False), R(2, to=3, dial=False, rdelay=hold), R(3, to=2)]},
                    {"a": "kill", "t": hold // 2, "o": 2}, {"a": "burst", "t": hold, "o": 1, "reqs": [R(4, to=3, dial=False)]}])
+    # the requester's protocol loop is held while BOTH a request to the healthy peer 3 completes (with a failure
+    # or with its response) and the connection of peer 2 closes; when it runs again both are ready in one poll and
+    # the close is handled first.  Every request to peer 3 still gets exactly one terminal event, peer 3 stays connected.
+    hold3 = dict(nodes=[{}, {}, {}], links=[L(1, 2), L(1, 3)], keep_alive_ms=60000, timeout_ms=1500)
+    cases = {
+        "reject": [R(1, to=3, dial=False, pol="reject", rdelay=120)],
+        "oversize-answer": [R(1, to=3, dial=False, rsize=1025, rdelay=120)],
+        "response": [R(1, to=3, dial=False, rdelay=120)],
+        "several": [R(1, to=3, dial=False, pol="reject", rdelay=100), R(2, to=3, dial=False, rdelay=120),
+                    R(3, to=3, dial=False, rsize=1025, rdelay=140), R(4, to=2, dial=False, pol="stall")],
+    }
+    for name, reqs in cases.items():
+        add("other-peer-closes-while-failure-ready-%s" % name, epilogue="kill", **hold3,
+            steps=[c12, c13_, {"a": "burst", "t": 40, "o": 1, "reqs": reqs}, {"a": "freeze_proto", "t": 60, "o": 1},
+                   {"a": "kill", "t": 120, "o": 2}, {"a": "thaw_proto", "t": 200, "o": 1},
+                   {"a": "burst", "t": 200, "o": 1, "reqs": [R(9, to=3, dial=False)]}])
+    add("other-peer-closes-while-failure-ready-timeout", epilogue="kill", **dict(hold3, timeout_ms=250),
+        steps=[c12, c13_, {"a": "burst", "t": 40, "o": 1, "reqs": [R(1, to=3, dial=False, pol="stall"), R(2, to=3, dial=False, pol="stall")]},
+               {"a": "freeze_proto", "t": 60, "o": 1}, {"a": "kill", "t": 200, "o": 2}, {"a": "thaw_proto", "t": 300, "o": 1},
+               {"a": "burst", "t": 200, "o": 1, "reqs": [R(9, to=3, dial=False)]}])
+    # the other peer's link is cut by the proxy instead of the node being dropped (tcp / ws)
+    add("other-peer-closes-while-failure-ready-cut", epilogue="kill", **dict(hold3, links=[L(1, 2, "proxy"), L(1, 3)]),
+        steps=[c12, c13_, {"a": "burst", "t": 40, "o": 1, "reqs": [R(1, to=3, dial=False, pol="reject", rdelay=120), R(2, to=3, dial=False, rdelay=120)]},
+               {"a": "freeze_proto", "t": 60, "o": 1}, {"a": "cut", "t": 120, "from": 1, "to": 2, "dir": "up", "after": 0},
+               {"a": "thaw_proto", "t": 200, "o": 1}, {"a": "burst", "t": 200, "o": 1, "reqs": [R(9, to=3, dial=False)]}])
+    # the failing request's own link is cut (tcp / ws): both connections close while the loop is held
+    add("both-peers-close-while-held", epilogue="kill", **dict(hold3, links=[L(1, 2), L(1, 3, "proxy")]),
+        steps=[c12, c13_, {"a": "burst", "t": 40, "o": 1, "reqs": [R(1, to=3, dial=False, rdelay=300), R(2, to=2, dial=False, pol="stall")]},
+               {"a": "freeze_proto", "t": 60, "o": 1}, {"a": "cut", "t": 80, "from": 1, "to": 3, "dir": "up", "after": 0},
+               {"a": "kill", "t": 40, "o": 2}, {"a": "thaw_proto", "t": 200, "o": 1}])
     # short keep-alive: the connection is closed under the protocol's feet, later requests redial
     add("keepalive-redial", keep_alive_ms=200,
         steps=[{"a": "burst", "o": 1, "reqs": [R(1)]}, {"a": "burst", "t": 700, "o": 1, "reqs": [R(2)]},
@@ -256,29 +286,38 @@ def random_other_peer_scenario(sid, rnd, tr="tcp"):
     nodes = [{} for _ in range(n)]
     links = [L(1, p) for p in range(2, n + 1)]
     steps = [{"a": "connect", "from": 1, "to": p} for p in range(2, n + 1)]
-    steps.append({"a": "freeze_node", "t": 40, "o": held})
+    hold_proto = rnd.random() < 0.5
+    if not hold_proto:
+        steps.append({"a": "freeze_node", "t": 40, "o": held})
     k, reqs = 0, []
     for _ in range(rnd.choice([1, 2, 3])):
         k += 1
-        reqs.append(R(k, to=held, dial=rnd.random() < 0.5, size=rnd.choice([HDR, 64, 600]), rsize=rnd.choice([8, 32, 300])))
+        r = R(k, to=held, dial=rnd.random() < 0.5, size=rnd.choice([HDR, 64, 600]), rsize=rnd.choice([8, 32, 300]))
+        if hold_proto:
+            r.update(dial=False, pol=rnd.choice(["reject", "answer", "answer", "stall"]), rdelay=rnd.choice([60, 100, 150]),
+                     rsize=rnd.choice([8, 300, 1025]))
+        reqs.append(r)
     if rnd.random() < 0.5:
         k += 1
         other = rnd.choice([p for p in range(2, n + 1) if p != held])
         reqs.append(R(k, to=other, dial=False, pol=rnd.choice(["answer", "stall", "kill"]), rdelay=rnd.choice([0, 50, 200])))
     rnd.shuffle(reqs)
-    steps.append({"a": "burst", "t": 10, "o": 1, "reqs": reqs})
+    steps.append({"a": "burst", "t": 40 if hold_proto else 10, "o": 1, "reqs": reqs})
+    if hold_proto:
+        steps.append({"a": "freeze_proto", "t": rnd.choice([30, 60]), "o": 1})
     spent = 0
     for p in range(2, n + 1):
         if p != held and rnd.random() < 0.8:
             t = rnd.choice([0, 10, 40, 100])
             spent += t
             steps.append({"a": "kill", "t": t, "o": p})
-    steps.append({"a": "thaw_node", "t": max(hold - spent, 10), "o": held})
+    steps.append({"a": "thaw_proto" if hold_proto else "thaw_node", "t": max(hold - spent, 10), "o": 1 if hold_proto else held})
     k += 1
     steps.append({"a": "burst", "t": rnd.choice([50, 300]), "o": 1, "reqs": [R(k, to=held, dial=rnd.random() < 0.5)]})
     return dict(id=sid, seed=rnd.randrange(1 << 30), src="rand-other-peer", transport=tr, timeout_ms=rnd.choice([500, 800]),
                 conn_ms=1500, sub_ms=3000, max_size=1024, keep_alive_ms=60000, perturb=rnd.choice([0, 1, 2, 3]),
                 nodes=nodes, links=links, steps=steps, epilogue=rnd.choice(["", "kill"]), linger_ms=150)
+
 
 
 def random_scenario(sid, rnd, tr="tcp"):
